@@ -103,8 +103,8 @@ def fix_window(prop, tier, seed):
 @provider('C18')
 def nodal_prices(prop, tier, seed):
     rng = random.Random(seed)
-    cases = [dict(T=T, windows=w, pseed=rng.randint(0, 999), probe=3) for T in (8, 12) for w in ([(0, 8)], [(1, 4), (6, 8)], [(2, 8)], [(0, 3), (5, 8)])]
-    rng.shuffle(cases)
+    cases = [dict(T=T, windows=w, pseed=rng.randint(0, 999), probe=3) for T in (8, 12) for w in ([(1, 4), (6, 8)], [(0, 3), (5, 8)], [(0, 8)], [(2, 8)])]
+    cases = cases[:2] + cases[4:6] + cases[2:4] + cases[6:]     # gapped activity first
     return dict(bounded=run_cases(sc.check_nodal_price, cases[:_n(tier, 5, 8)], 'supergradient inequality V(d) <= V + price*d for injections +-0.5 at up to 3 active steps of a node with contiguous / gapped activity',
                                   '4h grids of 8-12 steps', 60 if tier == 'quick' else 300))
 
